@@ -225,6 +225,15 @@ func (s *Scheduler) WaitQuiescent(root int) []ginfo {
 }
 
 // Report is the outcome of one controlled call.
+// Settle waits until the system is quiescent again. It is meant for a decide callback that has just caused a side effect outside
+// the seams (cancelled one caller's context): afterwards every goroutine is again parked, blocked or gone.
+func (s *Scheduler) Settle() {
+	s.mu.Lock()
+	c := s.caller
+	s.mu.Unlock()
+	s.WaitQuiescent(c)
+}
+
 type Report struct {
 	Returned    bool     // the call returned (or panicked) on the caller goroutine
 	CallerPanic any      // value recovered on the caller goroutine
